@@ -133,3 +133,61 @@ Proof.
 Qed.
 
 End Load.
+
+(* ====================================================================== ArxmlFile::serialize, loaded alone *)
+Section SelfContained.
+Variable strict : bool.
+Variable T : tables.
+Variable tab_el tab_at tab_en : nametab.
+Variable check_fn : N -> list N -> res bool.
+Variable float_fmt : N -> list N.
+Variable float_parse : list N -> option N.
+Variable attr_schema_location : N.
+
+Let FS := f_serialize T tab_el tab_at tab_en check_fn float_fmt attr_schema_location.
+
+(* what f_serialize returns: the header of the file and ser_heap of the RESULT world (the root's xsi:schemaLocation
+   may have been rewritten), filtered for f, from the root of the file's model; the root is attributed to f *)
+Lemma f_serialize_inv f w text w' : FS f w = Val (OK text, w') ->
+  exists fl x body, nth_opt (w_files w) (N.to_nat f) = Some fl /\ nth_opt (w_models w) (N.to_nat (f_model fl)) = Some x /\
+    Attributed w (m_root x) f /\
+    ser_heap T tab_el tab_at tab_en float_fmt (fuel_of w') w' (Some f) (m_root x) 0 false = Val body /\
+    text = Serializer.xml_header (f_standalone fl) ++ body.
+Proof.
+  intros H. unfold FS, f_serialize in H.
+  apply wbind_inv in H as [(fl & w1 & H1 & H) | (e0 & H1 & [=])].
+  apply get_file_inv in H1 as (fl' & Hfl & [= <-] & ->).
+  apply wbind_inv in H as [(x & w1 & H1 & H) | (e0 & H1 & [=])].
+  apply get_model_inv in H1 as (x' & Hx & [= <-] & ->).
+  apply wbind_inv in H as [([loc files] & w1 & H1 & H) | (e0 & H1 & [=])].
+  apply file_membership_spec in H1 as (-> & Heff & _).
+  destruct (set_mem f files) eqn:Hm; cbn [negb] in H; [|apply wfail_inv in H as ([=] & _)].
+  apply wbind_inv in H as [(fname & w1 & H1 & H) | (e0 & H1 & [=])].
+  apply wlift_inv in H1 as (a & _ & [= <-] & ->).
+  apply wbind_inv in H as [(u & w1 & H1 & H) | (e0 & H1 & [=])].
+  destruct (ser_heap T tab_el tab_at tab_en float_fmt (fuel_of w1) w1 (Some f) (m_root x) 0 false) as [body| |] eqn:Eb; try discriminate.
+  injection H as <- <-. exists fl, x, body. repeat split; auto.
+  exists files. split; auto. apply set_mem_in. exact Hm.
+Qed.
+
+(* each file's text, loaded alone, gives exactly the projection tree of the file (side conditions explicit: the
+   projection exists for the fuel of the writer, no written element is hollow, the projection is a canonical root in
+   the sense of C01 for the version `ver`) *)
+Theorem file_self_contained ver f w text w' : FS f w = Val (OK text, w') ->
+  exists fl x, nth_opt (w_files w) (N.to_nat f) = Some fl /\ nth_opt (w_models w) (N.to_nat (f_model fl)) = Some x /\
+    Attributed w (m_root x) f /\
+    forall t, fproj (fuel_of w') w' (Some f) (m_root x) = Some t ->
+      NoHollow T w' (Some f) (m_root x) ->
+      RoundTripFile.RootCanon strict T tab_el tab_at tab_en check_fn float_fmt float_parse ver t ->
+      exists st, Parser.load strict T tab_el tab_at tab_en check_fn float_parse text = Val (Parser.Ret t st) /\
+                 Parser.p_warnings st = [] /\ Parser.p_version st = ver /\ Parser.p_standalone st = f_standalone fl.
+Proof.
+  intros H. destruct (f_serialize_inv f w text w' H) as (fl & x & body & Hfl & Hx & Hroot & Hb & ->).
+  exists fl, x. repeat split; auto. intros t Ht NH RC.
+  apply (RoundTripFile.file_roundtrip strict T tab_el tab_at tab_en check_fn float_fmt float_parse ver t (f_standalone fl) body RC).
+  rewrite <- Hb. symmetry. apply (ser_heap_fproj T tab_el tab_at tab_en float_fmt w' (Some f) (m_root x) NH); auto.
+  constructor. destruct (fuel_of w'); cbn [fproj] in Ht; [discriminate|].
+  destruct (w_nodes w' (m_root x)) as [rn|] eqn:Hn; [|discriminate]. exists rn. exact Hn.
+Qed.
+
+End SelfContained.
